@@ -65,7 +65,10 @@ SHAPES = {
     15: {"name": "tpdefer", "arg": "int", "defer": True, "parts": [
         ("topProducts(first: ARG)", "Product", "upc name ... @defer { reviews { body author { username } } }")]},
     16: {"name": "pecho", "arg": "nested", "env": "plan", "parts": []},
+    17: {"name": "pmeta", "arg": "nested", "env": "plan", "parts": []},
 }
+FAULTS_QUICK = ["502html", "transport", "200text", "503errors"]
+FAULTS_ALL = ["502html", "503errors", "200text", "200empty", "transport", "datanull"]
 NO_PAIRS = {14, 15}  # not used for the gated / traced pairs (a mutation pair has no fixed reference; traced runs use Execute)
 SUBGRAPHS = {"": ["accounts", "products", "reviews"],
              "plan": ["catalog", "users", "bridge-one", "bridge-two", "titles", "wsvc", "zsvc", "target"]}
@@ -129,7 +132,10 @@ def concrete(a):
     vdefs = ", ".join(defs[x] for x in order if x in defs)
     frags, roots, fnames = [], [], {}
     if sh["arg"] == "nested":
-        call = 'echo(filter: {kind: %s, min: 1, owner: {id: "7"}, tags: ["x", %s]}, n: $%s)' % (arg_txt, arg_txt, nincl)
+        if sh["name"] == "pmeta":
+            call = 'echo(filter: {kind: "k"}, n: $%s) me @meta(in: {tags: ["t", %s], nested: {value: %s}}) { id name }' % (nincl, arg_txt, arg_txt)
+        else:
+            call = 'echo(filter: {kind: %s, min: 1, owner: {id: "7"}, tags: ["x", %s]}, n: $%s)' % (arg_txt, arg_txt, nincl)
         if a["fr"] == 0:
             roots.append(call)
         elif a["fr"] == 1:
@@ -319,10 +325,25 @@ def validate_hist(ctx, rows, details, tag, cfg="Trace_PlanCache.cfg"):
         t, _ = clean.pop(idx)
         suspects.append((t, [(what, t[min(max(line - seen - 1, 1), len(t) - 1)])]))
     # ---- suspects: one small TLC run per trace, at most 3 per (invariant, shape, minify) group
+    def extra(t, e):
+        """fault runs: (fault kind, what differs: data | errors, subgraph, scope) from the driver's detail record"""
+        if t[0]["mode"] != "fault":
+            return ()
+        d = dkey.get((t[0]["h"], t[0]["o"], "fault", e.get("g"), e.get("pos")), {})
+        return (d.get("fault", "?"), d.get("cls", "?"), d.get("sub", "?"), d.get("scope", "?"))
+
+    def mkkey(what, t, e):
+        o = t[0]["o"]
+        shape = SHAPES[e["a"]["s"]]["name"] if e.get("a") else "?"
+        if t[0]["mode"] == "fault":
+            f, cls, sub, scope = extra(t, e)
+            return "%s:fault:%s:%s:%s:%s:%s:O=%d" % (what, f, cls, shape, sub, scope, o)
+        return "%s:%s:%s:%s:O=%d" % (what, t[0]["mode"], shape, "minify" if o & 8 else "nominify", o)
+
     groups = collections.OrderedDict()
     for t, s in suspects:
         inv, e = s[0]
-        g = (inv, e["a"]["s"], bool(t[0]["o"] & 8), t[0]["mode"])
+        g = (inv, e["a"]["s"], bool(t[0]["o"] & 8), t[0]["mode"]) + extra(t, e)[:2]
         groups.setdefault(g, []).append((t, s))
     nrun = 0
     skipped_known = {}
@@ -334,7 +355,7 @@ def validate_hist(ctx, rows, details, tag, cfg="Trace_PlanCache.cfg"):
         # validated again (it could only print the same KNOWN-FINDING line)
         inv0, e0 = items[0][1][0]
         t0 = items[0][0]
-        pred = "%s:%s:%s:%s:O=%d" % (inv0, t0[0]["mode"], SHAPES[e0["a"]["s"]]["name"], "minify" if t0[0]["o"] & 8 else "nominify", t0[0]["o"])
+        pred = mkkey(inv0, t0, e0)
         kp = known_pattern(ctx, pred)
         if kp is not None and kp in CONFIRMED:
             skipped_known[kp] = skipped_known.get(kp, 0) + len(items)
@@ -364,13 +385,15 @@ def validate_hist(ctx, rows, details, tag, cfg="Trace_PlanCache.cfg"):
             raise lib.Inconclusive("trace validation failed in an unexpected way: %s" % r.error)
         ev, t = batch[line - 1], owner[line - 1]
         o = t[0]["o"]
-        shape = SHAPES[ev["a"]["s"]]["name"] if ev.get("a") else "?"
-        key = "%s:%s:%s:%s:O=%d" % (what, t[0]["mode"], shape, "minify" if o & 8 else "nominify", o)
+        key = mkkey(what, t, ev)
         d = dkey.get((t[0]["h"], o, t[0]["mode"], ev.get("g"), ev.get("pos")), {})
         msg = {
             "T_Transparent": "the response of an engine serving a history differs from the response of a fresh engine" + (
                 " (request tracing on: the trace in the response extensions belongs to ANOTHER request that used the same cached plan)"
-                if t[0]["mode"] == "traced" else ""),
+                if t[0]["mode"] == "traced" else "") + (
+                " under the same subgraph fault (%s of %s answered with %s: the %s differ from the default-option engine's)" % (
+                    {"entities": "the _entities requests", "all": "all requests"}.get(extra(t, ev)[3], "requests"), extra(t, ev)[2], extra(t, ev)[0], extra(t, ev)[1])
+                if t[0]["mode"] == "fault" else ""),
             "T_PlanIndependent": "the plan / subgraph requests that served the request differ from those of a fresh engine with the same options",
             "T_FreshFunctional": "two requests that are the same operation up to variable names / literals / operation name / fragments got different responses",
             "T_Model": "the engine model rejects the recorded history",
@@ -381,7 +404,7 @@ def validate_hist(ctx, rows, details, tag, cfg="Trace_PlanCache.cfg"):
         ctx.violation(key, "%s; history %s, options %s (%s run), position %s, request %s" % (
             msg, t[0]["h"], oname(o), t[0]["mode"], ev.get("pos"), json.dumps(concrete(ev["a"])["q"]) if ev.get("a") else "?"),
             {"history": [concrete(x["a"]) for x in t[1:] if x["g"] in (0, 1) or t[0]["mode"] in ("gated", "traced")], "oset": o, "mode": t[0]["mode"],
-             "slow": d.get("slow"), "failing_position": ev.get("pos"), "event": ev, "detail": d, "invariant": what})
+             "slow": d.get("slow"), "fault": {k: d.get(k) for k in ("sub", "fault", "scope", "cls")} if t[0]["mode"] == "fault" else None, "failing_position": ev.get("pos"), "event": ev, "detail": d, "invariant": what})
         rest = len(items) - 1
         if rest > 0:
             ctx.notes.append("%d more recorded traces with the signature %s (same invariant, shape, minify on/off, mode)" % (rest, list(g)))
@@ -553,7 +576,16 @@ def nontrivial(b):
 def run_replay(ctx, binary):
     with open(ctx.replay_in) as f:
         case = json.load(f)["case"]
-    if case.get("mode") == "slow":
+    if case.get("mode") == "fault":
+        ip, ep, rp = ctx.path("replay.ndjson"), ctx.path("replay-events.ndjson"), ctx.path("replay-res.ndjson")
+        f = case["fault"]
+        lib.write_ndjson(ip, [{"id": "replay", "o": case["oset"], "sub": f["sub"], "fault": f["fault"], "scope": f["scope"], "r": case["history"][0]}])
+        ctx.run_bin(binary, ["-mode", "fault", "-in", ip, "-out", ep, "-res", rp], timeout=600)
+        rows = lib.read_ndjson(ep)
+        acc, _ = validate_hist(ctx, rows, lib.read_ndjson(rp), "replay", cfg="Trace_PlanCache_gated.cfg")
+        ctx.coverage.update({"traces_validated_against_impl": acc, "evaluations": len(rows), "distinct_nontrivial": 1,
+                             "rule": "replay of one subgraph-fault run", "exhaustive": False})
+    elif case.get("mode") == "slow":
         ip, ep, rp = ctx.path("replay.ndjson"), ctx.path("replay-events.ndjson"), ctx.path("replay-res.ndjson")
         lib.write_ndjson(ip, [{"id": "replay", "o": case["oset"], "slow": case["slow"], "r": case["history"][0]}])
         run_stage(ctx, binary, ["-mode", "slow", "-in", ip, "-out", ep, "-res", rp], timeout=600)
@@ -618,6 +650,18 @@ def run(ctx):
         chosen = nt[:150] + tr[:10]
     else:
         chosen = nt[:1150] + tr[:50]
+    # always replayed: the naming sweep of every shape that has variables (the same request under the three variable naming
+    # schemes, scheme 2 = names that collide with the canonical ones) - T_FreshFunctional across naming variants
+    def naming_sweep(b):
+        h = b["h"]
+        return (len(h) == 3 and sorted(x["nm"] for x in h) == [0, 1, 2]
+                and all({k: v for k, v in x.items() if k != "nm"} == {k: v for k, v in h[0].items() if k != "nm"} for x in h)
+                and h[0]["src"] == "var" and h[0]["val"] == 0 and h[0]["dir"] == 0 and h[0]["fr"] == 0 and h[0]["mo"] == 0)
+    sweeps = {}
+    for k in sorted(hs):
+        if naming_sweep(hs[k]):
+            sweeps.setdefault(hs[k]["h"][0]["s"], k)
+    chosen = list(dict.fromkeys(list(sweeps.values()) + chosen))
     all_o = list(range(16))
     hist_in = []
     for i, k in enumerate(chosen):
@@ -651,7 +695,7 @@ def run(ctx):
         n_capruns += 1
         prev, seen_keys = 0, set()
         for e in t[1:]:
-            k = (e["a"]["s"], e["a"]["op"], e["a"]["dir"])
+            k = (e["a"]["s"], e["a"]["op"], e["a"]["dir"], e["a"]["val"] if (e["a"]["s"] == 17 and e["a"]["src"] == "lit") else -1)
             if e["hit"] == 0:
                 if prev == cap:
                     n_evict += 1
@@ -664,7 +708,7 @@ def run(ctx):
     n_mut_dep = sum(1 for h in hist_in if any(r.get("mut") and any(q["a"]["s"] in (1, 2, 5, 8, 15) for q in h["reqs"][i + 1:])
                                                for i, r in enumerate(h["reqs"])))
     n_defer = sum(1 for h in hist_in if any(r.get("defer") for r in h["reqs"]))
-    n_echo = sum(1 for h in hist_in if any(r["a"]["s"] == 16 for r in h["reqs"]))
+    n_echo = sum(1 for h in hist_in if any(r["a"]["s"] in (16, 17) for r in h["reqs"]))
     ctx.log("capacity runs: %d (evictions %d, re-planned after eviction %d); histories with a mutation %d (a later query reads its effect: %d), "
             "with @defer %d, with an input-object argument %d" % (n_capruns, n_evict, n_replan, n_mut, n_mut_dep, n_defer, n_echo))
     # ---- 4. validate with TLC
@@ -710,6 +754,28 @@ def run(ctx):
     acc_s, _ = validate_hist(ctx, srows, [d for d in sdet if not d.get("unrealised")], "slow", cfg="Trace_PlanCache_gated.cfg")
     ctx.log("slow subgraph: %d runs (shape x option set x subgraph; %d with at least one parked exchange), %d accepted by TLC" % (
         len(slow_in), nheld, acc_s))
+    # ---- option-set transparency under a deterministic subgraph fault (data AND the multiset of complete error objects)
+    fault_in = []
+    no_dedup_off = [o for o in all_o if not o & 1]   # de-duplication off sends duplicate fetches, hence duplicate errors
+    for sid in SHAPES:
+        a = {"s": sid, "nm": 0, "src": "var", "val": 2 if SHAPES[sid]["arg"] == "int" else 0, "dir": 0, "ds": "var", "op": 1, "fr": 0, "mo": 0}
+        r = concrete(a)
+        if r.get("mut") or r.get("defer"):
+            continue
+        osets = sorted({2, 6, 14} | {rng.choice(no_dedup_off)}) if quick else [o for o in no_dedup_off if o]
+        for o in osets:
+            for sub in SUBGRAPHS[r.get("env", "")]:
+                for f in (FAULTS_QUICK if quick else FAULTS_ALL):
+                    for scope in (["entities"] if quick else ["entities", "all"]):
+                        fault_in.append({"id": "f%d-%d-%s-%s-%s" % (sid, o, sub, f, scope), "o": o, "sub": sub, "fault": f, "scope": scope, "r": r})
+    fp, fep, frp = ctx.path("fault.ndjson"), ctx.path("fault-events.ndjson"), ctx.path("fault-results.ndjson")
+    lib.write_ndjson(fp, fault_in)
+    run_stage(ctx, binary, ["-mode", "fault", "-in", fp, "-out", fep, "-res", frp, "-workers", "8"], timeout=3000)
+    frows = lib.read_ndjson(fep)
+    nfaulted = sum(1 for r in frows if r["ev"] == "req" and r["nx"] > 0)
+    acc_f, _ = validate_hist(ctx, frows, lib.read_ndjson(frp), "fault", cfg="Trace_PlanCache_gated.cfg")
+    ctx.log("subgraph faults: %d runs (shape x option set x subgraph x fault; %d with at least one faulted request), %d accepted by TLC" % (
+        len(fault_in), nfaulted, acc_f))
     # ---- determinism: every distinct request x every option set, N fresh plannings, 3 processes
     reqs = {}
     for h in hist_in:
@@ -755,8 +821,8 @@ def run(ctx):
     if raw_ne:
         ctx.notes.append("%d responses equal the reference only after key sorting (member order differs)" % raw_ne)
     ctx.coverage.update({
-        "traces_validated_against_impl": acc_h + acc_g + acc_s,
-        "evaluations": nreq + len(det_rows) + 2 * len(gated_in) + len(slow_in),
+        "traces_validated_against_impl": acc_h + acc_g + acc_s + acc_f,
+        "evaluations": nreq + len(det_rows) + 2 * len(gated_in) + len(slow_in) + len(fault_in),
         "distinct_nontrivial": len(distinct),
         "rule": "one case = (TLC-generated history of 3-5 requests, option set); executed sequentially and from two goroutines on one real "
                 "engine, every response compared with a fresh default engine; distinct by (concrete requests, option set); non-trivial = "
@@ -765,6 +831,7 @@ def run(ctx):
         "requests_executed_in_histories": nreq,
         "forced_interleavings": {"pairs": len(pairs), "runs": len(gated_in), "accepted_by_tlc": acc_g, "unrealised": len(unreal)},
         "slow_subgraph_runs": {"runs": len(slow_in), "with_parked_exchange": nheld, "accepted_by_tlc": acc_s, "unrealised": len(sunreal)},
+        "subgraph_fault_runs": {"runs": len(fault_in), "with_faulted_request": nfaulted, "accepted_by_tlc": acc_f},
         "requests_served_from_plan_cache": nhit,
         "small_capacity_runs": {"runs": n_capruns, "capacities": [1, 2, 3], "evictions_observed": n_evict, "replanned_after_eviction": n_replan},
         "histories_with": {"mutation": n_mut, "mutation_then_dependent_query": n_mut_dep, "defer": n_defer, "input_object_argument": n_echo},
